@@ -1,0 +1,60 @@
+//go:build verif
+
+package ssh
+
+import (
+	"net"
+	"time"
+)
+
+// Hook for the /verif harness (properties C32, C33): runs the real serverAuthenticate over a
+// scripted in-memory connTransport. Nothing here is compiled without the "verif" build tag.
+
+// verifTransport is a connTransport whose reads and writes are harness functions.
+type verifTransport struct {
+	read      func() ([]byte, error)
+	write     func([]byte) error
+	sessionID []byte
+}
+
+func (t *verifTransport) writePacket(p []byte) error {
+	return t.write(append([]byte(nil), p...))
+}
+func (t *verifTransport) readPacket() ([]byte, error)         { return t.read() }
+func (t *verifTransport) Close() error                        { return nil }
+func (t *verifTransport) getAlgorithms() NegotiatedAlgorithms { return NegotiatedAlgorithms{} }
+func (t *verifTransport) getSessionID() []byte                { return t.sessionID }
+func (t *verifTransport) waitSession() error                  { return nil }
+
+// verifNetConn is a net.Conn that only knows its addresses.
+type verifNetConn struct{ remote net.Addr }
+
+func (c verifNetConn) Read([]byte) (int, error)         { return 0, net.ErrClosed }
+func (c verifNetConn) Write(b []byte) (int, error)      { return len(b), nil }
+func (c verifNetConn) Close() error                     { return nil }
+func (c verifNetConn) LocalAddr() net.Addr              { return nil }
+func (c verifNetConn) RemoteAddr() net.Addr             { return c.remote }
+func (c verifNetConn) SetDeadline(time.Time) error      { return nil }
+func (c verifNetConn) SetReadDeadline(time.Time) error  { return nil }
+func (c verifNetConn) SetWriteDeadline(time.Time) error { return nil }
+
+// VerifServerAuthenticate applies the configuration defaulting of NewServerConn (SetDefaults,
+// MaxAuthTries 0 -> 6, default PublicKeyAuthAlgorithms) to a copy of config and runs
+// serverAuthenticate on a connection whose transport reads packets from read and hands every
+// written packet to write. remote is what RemoteAddr() reports to the auth loop (may be nil).
+func VerifServerAuthenticate(config *ServerConfig, sessionID []byte, remote net.Addr,
+	read func() ([]byte, error), write func([]byte) error) (*Permissions, error) {
+	fullConf := *config
+	fullConf.SetDefaults()
+	if fullConf.MaxAuthTries == 0 {
+		fullConf.MaxAuthTries = 6
+	}
+	if len(fullConf.PublicKeyAuthAlgorithms) == 0 {
+		fullConf.PublicKeyAuthAlgorithms = defaultPubKeyAuthAlgos
+	}
+	s := &connection{
+		transport: &verifTransport{read: read, write: write, sessionID: sessionID},
+		sshConn:   sshConn{conn: verifNetConn{remote: remote}, sessionID: sessionID},
+	}
+	return s.serverAuthenticate(&fullConf)
+}
